@@ -89,6 +89,12 @@ def run(tier, replay=None):
             for res in out["results"]:
                 if res.get("broken"):
                     raise common.Broken("schedule %s: %s" % (res["id"], res["broken"]))
+                if res.get("later_handshake"):
+                    run_.evaluations += 1
+                    sched0 = [s for s in job["schedules"] if s["id"] == res["id"]][0]
+                    run_.diverge("transport=%s later-session-cannot-shake-hands" % job.get("transport", "?"), res["later_handshake"],
+                                 {"cmd": ["c13"], "input": dict(job, schedules=[sched0]), "observed": res, "spec": "ReqContext"})
+                    continue
                 run_.evaluations += 1
                 blocked += res["blocked"]
                 sched = [s for s in job["schedules"] if s["id"] == res["id"]][0]
